@@ -32,8 +32,8 @@ EXTENDS Prims, SequencesExt
 Trace == ndJsonDeserialize(IOEnv.VERIF_TRACE)
 Prop == IOEnv.VERIF_PROP
 
-VARIABLES l, hist, ub, held, q, lead, F, G, src, last, part, ref, big, reg, bad, nchk
-vars == <<l, hist, ub, held, q, lead, F, G, src, last, part, ref, big, reg, bad, nchk>>
+VARIABLES l, hist, ub, held, q, lead, F, G, src, last, part, ref, big, reg, wrote, bad, nchk
+vars == <<l, hist, ub, held, q, lead, F, G, src, last, part, ref, big, reg, wrote, bad, nchk>>
 
 Get(f, k, d) == IF k \in DOMAIN f THEN f[k] ELSE d
 Put(f, k, x) == [y \in DOMAIN f \cup {k} |-> IF y = k THEN x ELSE f[y]]
@@ -51,6 +51,7 @@ Init ==
   /\ ref = [bytes |-> <<>>, canon |-> FALSE]
   /\ big = Empty
   /\ reg = AlgNames       \* the checksum services registered (library start-up state)
+  /\ wrote = Empty        \* what the last writer primitive put into a buffer (for its read-back)
   /\ bad = <<>> /\ nchk = 0
 
 ---------------------------------------------------------------------------
@@ -172,7 +173,13 @@ DecodeClauses(e) ==
   IN
   (* C01: decoding what encode produced gives the message back (canonical domain) *)
   (IF P("C01") /\ hd.t = T /\ Canonical(T, hd.v)
-   THEN IF e.res = "ok" /\ e.vpost = hd.vp THEN {} ELSE {<<"C01.roundtrip", "none">>}
+   THEN (IF e.res = "ok" /\ e.vpost = hd.vp THEN {} ELSE {<<"C01.roundtrip", "none">>})
+        \cup (* "length and checksum fields that the frame computes itself are compared against their correct values" *)
+             (IF e.res = "ok" /\ T \in FrameTypes /\ HeaderConforms(T, hd.v, hd.bytes) /\ e.vpost[LenName(T)] # CorrectLen(T, hd.bytes)
+              THEN {<<"C01.computed-length", "none">>} ELSE {})
+        \cup (IF e.res = "ok" /\ T \in CsumTypes /\ ChecksumAlg(T) \in reg /\ HeaderConforms(T, hd.v, hd.bytes)
+                 /\ e.vpost[CsumName(T)] # CorrectCsum(T, hd.bytes)
+              THEN {<<"C01.computed-checksum", "none">>} ELSE {})
    ELSE {})
   \cup
   (* C02, decode direction: agreement with the interpreter *)
@@ -276,6 +283,9 @@ PrimClauses(e) ==
            THEN {<<"C13.read", IF PadIsHigh(a) THEN "Trim_RuneCutset" ELSE "none">>} ELSE {})
           \cup (IF P("C03") /\ fn \in IntOnlyFns /\ R.ok /\ ~agree THEN {<<"C03.primitive-read", "none">>} ELSE {})
           \cup (IF P("C02") /\ R.ok /\ e.res \in {"ok", "err"} /\ ~agree THEN {<<"C02.primitive-read", "none">>} ELSE {})
+          \cup (* C01 at primitive level (self-referential): reading back what was written returns it *)
+                (IF P("C01") /\ e.tag = "read-back" /\ fn \notin FixedFns /\ e.b \in DOMAIN wrote /\ ~(e.res = "ok" /\ e.ret = wrote[e.b])
+                 THEN {<<"C01.primitive-roundtrip", "none">>} ELSE {})
           \cup (IF P("C07") /\ R.ok /\ e.res = "ok" /\ ~(IsSuffixOf(e.post, pre) /\ used = R.used) THEN {<<"C07.primitive-consume", "none">>} ELSE {})
           \cup (IF P("C18") /\ R.ok /\ e.tag = "read-back" /\ (e.res = "err" \/ (e.res = "ok" /\ Len(e.ret) # Len(R.ret)))
                  THEN {<<"C18.read-back", "none">>} ELSE {})
@@ -355,6 +365,7 @@ Step(e) ==
                [] e.op \in {"decode", "new", "newzero", "copy", "mutate", "encode"} /\ o \in DOMAIN last -> Del(last, o)
                [] OTHER -> last
   /\ big' = IF e.op = "fill" THEN Put(big, b, e.args.runs) ELSE big
+  /\ wrote' = IF e.op = "prim" /\ e.fn \in Writers /\ e.fn # "Padding" /\ e.res = "ok" THEN Put(wrote, b, ArgOf(e.fn, e.args)) ELSE wrote
   /\ reg' = CASE e.op = "regremove" -> reg \ {e.alg}
               [] e.op = "regrestore" -> reg \cup {e.alg}
               [] OTHER -> reg
@@ -369,6 +380,7 @@ ResetHistory ==
   /\ ref' = [bytes |-> <<>>, canon |-> FALSE]
   /\ big' = Empty
   /\ reg' = AlgNames
+  /\ wrote' = Empty
 
 Next ==
   /\ l <= Len(Trace)
